@@ -184,7 +184,8 @@ static void run(const Case& k, Cur& c, std::ostream& o)
   for(char ch : k.pattern) if(classes.find(ch) == std::string::npos) classes.push_back(ch);
 
   constexpr int bs = BlockOf<T_>::value;
-  const bool ccopy = (k.op == "ccopy" || k.op == "ccopyto");
+  // ops whose second operand class is a plain (flat) DenseVector
+  const bool ccopy = (k.op == "ccopy" || k.op == "ccopyto" || k.op == "flatcopy" || k.op == "flatcopyinv" || k.op == "flatrtinv");
 
   std::vector<std::unique_ptr<T_>> objs;
   std::unique_ptr<DV> dvx;     // second operand of component_copy(_to)
@@ -240,6 +241,29 @@ static void run(const Case& k, Cur& c, std::ostream& o)
   else if(op == "minabs") res.push_back(opnd.at(0)->min_abs_element());
   else if(op == "max") res.push_back(opnd.at(0)->max_element());
   else if(op == "min") res.push_back(opnd.at(0)->min_element());
+  // flat <-> composed copies (DenseVector::copy(VT_) / copy_inv(VT_) / convert(VT_) = set_vec / set_vec_inv)
+  else if(op == "flatcopy") dvx->copy(*opnd.at(0));            // flat <- composed
+  else if(op == "flatcopyinv") dvx->copy_inv(*opnd.at(0));     // composed <- flat
+  else if(op == "flatconvert")
+  {
+    DV f;
+    f.convert(*opnd.at(0));
+    Sh<DV>::flat(f, res);
+  }
+  else if(op == "flatrt")                                      // a -> flat -> b : b becomes a
+  {
+    DV f(opnd.at(0)->template size<Perspective::pod>(), Q(0));
+    f.copy(*opnd.at(0));
+    f.copy_inv(*opnd.at(1));
+    Sh<DV>::flat(f, res);
+  }
+  else if(op == "flatrtinv")                                   // flat -> a -> flat2 : flat2 equals flat
+  {
+    dvx->copy_inv(*opnd.at(0));
+    DV g(opnd.at(0)->template size<Perspective::pod>(), Q(0));
+    g.copy(*opnd.at(0));
+    Sh<DV>::flat(g, res);
+  }
   else if constexpr(bs > 0)
   {
     if(op == "axpyb") opnd.at(0)->axpy_blocked(*opnd.at(1), tiny_of<bs>(k.scal));
@@ -252,6 +276,17 @@ static void run(const Case& k, Cur& c, std::ostream& o)
     else if(op == "minabsb") res = list_of<bs>(opnd.at(0)->min_abs_element_blocked());
     else if(op == "maxb") res = list_of<bs>(opnd.at(0)->max_element_blocked());
     else if(op == "minb") res = list_of<bs>(opnd.at(0)->min_element_blocked());
+    else if(op == "denseblocked")                               // blocked -> dense -> blocked (array re-interpretation)
+    {
+      DV d;
+      d.convert(*opnd.at(0));
+      T_ v;
+      v.convert(d);
+      DV d2(*opnd.at(0));
+      T_ v2(d2);
+      Sh<DV>::flat(d, res); Sh<T_>::flat(v, res); Sh<DV>::flat(d2, res); Sh<T_>::flat(v2, res);
+      res.push_back(Q((unsigned long)d.size())); res.push_back(Q((unsigned long)v.size()));
+    }
     else if(op == "ccopy") opnd.at(0)->component_copy(*dvx, int(double(a)));
     else if(op == "ccopyto") opnd.at(0)->component_copy_to(*dvx, int(double(a)));
     else known = false;
@@ -449,6 +484,13 @@ int main(int argc, char** argv)
   reg<PowerVector<P2D, 2>>();
   reg<PowerVector<TupleVector<DV, DB<2>>, 2>>();
   reg<TupleVector<PowerVector<DB<3>, 3>, TupleVector<DV>>>();
+  // blocked components in first / middle position, all block sizes
+  reg<TupleVector<DB<2>, DV>>();
+  reg<TupleVector<DV, DB<4>, DV>>();
+  reg<TupleVector<DB<1>, DB<3>>>();
+  reg<TupleVector<DB<3>, DB<2>, DV>>();
+  reg<PowerVector<DB<4>, 3>>();
+  reg<PowerVector<TupleVector<DB<2>, DV>, 2>>();
   if(argc > 1 && std::string(argv[1]) == "--shapes")
   {
     for(auto& e : registry()) std::cout << e.first << "\n";
